@@ -47,6 +47,7 @@ type Engine struct {
 	inlineAll  bool
 	staticVals map[string]Val
 	contractSource string // "repo" or "mirror"
+	rekeyed []string // contracts re-attached after a value/pointer receiver change
 	nameAliases map[string]map[string][]string // function key -> current name -> recorded names (pure renames)
 	lockLevels map[string]int    // lock field name -> level
 	guards     map[string]string // guarded field array prefix -> mutex field name
@@ -256,6 +257,25 @@ func (e *Engine) loadContracts() error {
 	}
 	if found == 0 {
 		return fmt.Errorf("no contract files found in %s or /verif/contracts", e.repo)
+	}
+	// a method whose receiver changed between value and pointer keeps its contract
+	for _, key := range sortedKeys(e.funcSpecs) {
+		if _, ok := e.funcs[key]; ok || !strings.HasPrefix(key, "(") {
+			continue
+		}
+		alt := ""
+		if strings.HasPrefix(key, "(*") {
+			alt = "(" + key[2:]
+		} else {
+			alt = "(*" + key[1:]
+		}
+		if _, ok := e.funcs[alt]; ok && e.funcSpecs[alt] == nil {
+			sp := e.funcSpecs[key]
+			delete(e.funcSpecs, key)
+			sp.Key = alt
+			e.funcSpecs[alt] = sp
+			e.rekeyed = append(e.rekeyed, key+" -> "+alt)
+		}
 	}
 	// every contract must name an existing function (or an interface method)
 	for key := range e.funcSpecs {
